@@ -110,6 +110,16 @@ func HMemKeyValue() {
 			nd.Assert(err == nil && has == stored[i], "has reports exactly the keys stored")
 		}
 	}
+	// after the history: every key is reported and read as the abstract map has it
+	for i := range keys {
+		has, err := storage.Has(ctx, st, keys[i])
+		nd.Assert(err == nil && has == stored[i], "after the history, has reports exactly the keys stored")
+		b, err := storage.Get(ctx, st, keys[i])
+		nd.Assert((err == nil) == stored[i], "after the history, get succeeds exactly for the keys stored")
+		if err == nil && stored[i] {
+			nd.Assert(nd.EqBytes(b, vals[i]), "after the history, get returns the bytes put under that key")
+		}
+	}
 	nd.Reach("end")
 }
 
